@@ -923,3 +923,67 @@ func TestSiblingIntervals(t *testing.T) {
 		c.Class("sibling-intervals: " + kind)
 	})
 }
+
+// TestReorderedBreakers: two circuit-breaking rules of one resource, both tripped; the rules are reloaded unchanged in the
+// other order (whole-set or per-resource loader). Both breakers keep their state, and the latest order is the one in which
+// they are consulted: a request right away is rejected by the rule listed first now; once only the first-listed rule's
+// retry timeout has elapsed, a request probes that breaker (Open->HalfOpen), is rejected by the other one, and the probe
+// is rolled back (HalfOpen->Open) - three facts the listeners and the block error report.
+func TestReorderedBreakers(t *testing.T) {
+	hx.Check(t, hx.N{Quick: 1500, Thorough: 15000}, func(t *rapid.T, c *hx.Case) {
+		hx.Reset(hx.Epoch + uint64(rapid.IntRange(0, 999).Draw(t, "t0")))
+		l := &lis{}
+		cb.RegisterStateChangeListeners(l)
+		st := cb.Strategy(rapid.SampledFrom([]int{int(cb.ErrorCount), int(cb.ErrorRatio)}).Draw(t, "strategy"))
+		thr := 1.0
+		if st == cb.ErrorRatio {
+			thr = 0.5
+		}
+		mk := func(id string, retry uint32) *cb.Rule {
+			return &cb.Rule{Id: id, Resource: "a", Strategy: st, RetryTimeoutMs: retry, MinRequestAmount: 1, StatIntervalMs: 10000, Threshold: thr}
+		}
+		short := uint32(rapid.SampledFrom([]int{50, 100}).Draw(t, "shortRetry"))
+		slow, quick := mk("slow", 5000), mk("quick", short)
+		if _, err := cb.LoadRules([]*cb.Rule{copyCb(slow), copyCb(quick)}); err != nil || len(cb.GetRulesOfResource("a")) != 2 {
+			t.Fatalf("load: %v", err)
+		}
+		e, _ := sentinel.Entry("a")
+		if e == nil {
+			t.Fatalf("first request blocked")
+		}
+		e.Exit(base.WithError(errors.New("biz"))) // trips both
+		if _, blk := sentinel.Entry("a"); blk == nil || ruleKey(blk.TriggeredRule()) != ruleKey(slow) {
+			t.Fatalf("before the reload: want a rejection by the rule listed first (slow), got %v", blk)
+		}
+		var err error
+		perRes := rapid.Bool().Draw(t, "perResource")
+		if perRes {
+			_, err = cb.LoadRulesOfResource("a", []*cb.Rule{copyCb(quick), copyCb(slow)})
+		} else {
+			_, err = cb.LoadRules([]*cb.Rule{copyCb(quick), copyCb(slow)})
+		}
+		if err != nil {
+			t.Fatalf("reload: %v", err)
+		}
+		if rs := cb.GetRulesOfResource("a"); len(rs) != 2 || rs[0].Id != "quick" {
+			t.Fatalf("after the reload the getter reports %v, want quick then slow", rs)
+		}
+		_, blk := sentinel.Entry("a")
+		if blk == nil || ruleKey(blk.TriggeredRule()) != ruleKey(quick) {
+			t.Fatalf("right after the reload in the other order (per-resource=%v): both breakers are still open; want a rejection by the rule listed first now (quick), got %v", perRes, blk)
+		}
+		hx.C.AddMs(uint64(short) + uint64(rapid.IntRange(0, 50).Draw(t, "past")))
+		before := len(l.log)
+		_, blk = sentinel.Entry("a")
+		if blk == nil || ruleKey(blk.TriggeredRule()) != ruleKey(slow) {
+			t.Fatalf("after the first-listed rule's retry timeout: want a rejection by the other rule (slow), got %v", blk)
+		}
+		got := fmt.Sprint(l.log[before:])
+		want := fmt.Sprint([]model.Transition{{From: model.Open, To: model.HalfOpen, Rule: "quick"}, {From: model.HalfOpen, To: model.Open, Rule: "quick"}})
+		c.Op("strategy=%v short retry=%d per-resource=%v: events %s", st, short, perRes, got)
+		if got != want {
+			t.Fatalf("after the reload in the other order (per-resource=%v) and the first-listed rule's retry timeout, the request must probe that breaker and roll the probe back when the other one rejects: listeners saw %s, want %s", perRes, got, want)
+		}
+		c.NonTrivial()
+	})
+}
